@@ -91,9 +91,8 @@ Expected(e) ==
 
 (* ---- LazyEqEager: the observation after a step ------------------------------------------------ *)
 MarksOK(v, s) == ToSet(v.marks) = MarkSet(s) /\ Len(v.marks) = Cardinality(MarkSet(s))
-ObsBad(e, want) ==        \* the set of reasons why the observation does not fit `want` ({} = fits)
-  IF e.outcome # "ok" THEN {<<"outcome", e.outcome>>}
-  ELSE IF Len(e.obs) # Len(want) \/ Len(e.tobs) # Len(want) THEN {<<"sheet count", Len(want), Len(e.obs)>>}
+ObsBad0(e, want) ==       \* the set of reasons why the observed sheets do not fit `want` ({} = they fit)
+  IF Len(e.obs) # Len(want) \/ Len(e.tobs) # Len(want) THEN {<<"sheet count", Len(want), Len(e.obs)>>}
   ELSE UNION {
     (IF e.obs[p].name # want[p].name THEN {<<"name", p, want[p].name, e.obs[p].name>>} ELSE {}) \cup
     (IF want[p].loaded /\ ~e.obs[p].loaded THEN {<<"not materialised", p>>} ELSE {}) \cup
@@ -104,6 +103,7 @@ ObsBad(e, want) ==        \* the set of reasons why the observation does not fit
     (IF e.obs[p].loaded /\ want[p].o # 0 /\ DiffOrig(want[p], e.obs[p].v.base) # {}
      THEN {<<"differs from the eager load of the file", p, DiffOrig(want[p], e.obs[p].v.base)>>} ELSE {})
     : p \in DOMAIN want}
+ObsBad(e, want) == IF e.outcome # "ok" THEN {<<"outcome", e.outcome>>} ELSE ObsBad0(e, want)
 (* the twin must follow the specification, else the history is not one this check can judge *)
 TwinBad(e, want) ==
   \/ e.tw_outcome # "ok" \/ Len(e.tobs) # Len(want)
@@ -224,14 +224,14 @@ Step(e) ==
        /\ UNCHANGED orig
        /\ sheets' = Follow(e, want)
        /\ IF e.a = "Save" /\ TwinSaveFailed(e)
-          THEN (IF e.tw_outcome = "ok" /\ ObsBad(e, want) # {} THEN Mismatch(l, <<"impl", "Save", "state after save", Small(ObsBad(e, want))>>)
+          THEN (IF ObsBad0(e, want) # {} THEN Mismatch(l, <<"impl", "Save", "state after save", Small(ObsBad0(e, want))>>)
                 ELSE TRUE)
           ELSE IF e.a = "Save" /\ TwinSaveBad(sheets, e) THEN Mismatch(l, <<"gen", "Save", "the eager twin's file does not show the specification's sheets and marks">>)
           ELSE IF TwinBad(e, want) THEN Mismatch(l, <<"gen", e.a, "the eager twin does not follow the specification">>)
           ELSE IF e.a # "Save"
           THEN LET bad == ObsBad(e, want) IN IF bad = {} THEN TRUE ELSE Mismatch(l, <<"impl", e.a, Small(bad)>>)
           ELSE LET fits == Fits(sheets, e)
-                   obad == IF e.outcome = "ok" THEN ObsBad(e, want) ELSE {}
+                   obad == ObsBad0(e, want)                  \* a save, failed or not, leaves the workbook as it was
                IN IF obad # {} THEN Mismatch(l, <<"impl", "Save", "state after save", Small(obad)>>)
                   ELSE IF fits # <<>> THEN HitsOf(fits[1], l)
                   ELSE Mismatch(l, <<"impl", "Save", Small(SaveBad(sheets, e, "pos", "fresh", "cached")),
